@@ -81,6 +81,12 @@ class TokenRoot(KDDataset):
         return super().__getattr__(item)
 
     def _getall(self, what):
+        if self.bulk == "internal":
+            # the root hands out its own storage by reference: a layer above must not write into it
+            store = self.__dict__.setdefault("_store", {})
+            if what not in store:
+                store[what] = [getattr(self, f"getitem_{what}")(j) for j in range(self.n)]
+            return store[what]
         vals = [getattr(self, f"getitem_{what}")(j) for j in range(self.n)]
         if what == "class":
             if self.bulk == "numpy":
@@ -371,7 +377,7 @@ _counter = st.shared(st.just(0))
 def root_spec(draw, min_n=1, max_n=12, with_bulk=True):
     return {"t": "root", "id": draw(st.integers(0, 9)), "n": draw(st.integers(min_n, max_n)),
             "C": draw(st.integers(1, 5)), "lay": draw(st.integers(0, 3)),
-            "bulk": draw(st.sampled_from(["list", "list", "numpy", "tensor"])) if with_bulk else "none"}
+            "bulk": draw(st.sampled_from(["list", "internal", "numpy", "tensor"])) if with_bulk else "none"}
 
 
 def _size_bound(spec):
